@@ -89,7 +89,7 @@ def check(ctx):
             first = False
         block, family, degrees, _, unit_rpe = mm.ORACLE[member]
         err = res.attrs.get((mm.SELF, "error"))
-        dids = res.attrs.get((mm.SELF, "delta_ids"))
+        dids = mm.final_attr(prog, res, "RPE", "delta_ids")
         ctx.require(err is not None and dids is not None,
                     f"RPE[{member}]: error / delta_ids never assigned")
         idps = res.calls(IDP)
